@@ -329,7 +329,13 @@ def fault_variation(scn, tier, seed):
     return out
 
 
-PLANS["C10"] = Plan("C10", fault_models, post=fault_variation, extra=gen.byte_mutations, level="model_checking",
+def c10_models(tier):
+    # the logger comparison runs over more than fault scenarios: unsafe methods with every status, every stored status
+    return fault_models(tier) + hist_models("inval")(tier) + \
+        [mc("MC_store", "store", Defects="{}", Family=q("store"), Tier=q(tier), Export="TRUE", replay_cap={"quick": 1200, "thorough": 20000})]
+
+
+PLANS["C10"] = Plan("C10", c10_models, post=fault_variation, extra=gen.byte_mutations, level="model_checking",
                     rule="behaviours = every store-tick-probe-tick-probe scenario of MC_faults in which each store operation of the "
                          "probing exchange fails or returns undecodable bytes, singly and in pairs, combined with origin errors / 5xx "
                          "during validation and background revalidation (fault placement is a choice of the model, enumerated "
